@@ -143,6 +143,9 @@ pub fn real_value_side<T: Object + ObjectWrite + ValueSide>(p: &Primitive, objs:
                 return out;
             }
         };
+        if T::catch_all() == Some(false) {
+            out.notes.push("catch-all-not-settable".into());
+        }
         let other0 = x.other_dict();
         let new_other = match (&other0, mode) {
             (Some(_), 'c') => Some(Dictionary::new()),
@@ -158,9 +161,7 @@ pub fn real_value_side<T: Object + ObjectWrite + ValueSide>(p: &Primitive, objs:
             _ => None,
         };
         if let Some(n) = new_other {
-            if x.set_other(n) != Some(true) {
-                out.notes.push("catch-all-not-settable".into());
-            }
+            x.set_other(n);
         }
         let other_x = x.other_dict();
         let fields_x = x.fields_debug();
@@ -299,7 +300,9 @@ fn vs_cases(schemas: &[SchemaJ], seed: u64, per_model: u64, model_only: bool, on
             let mut v = VsVisitor { prim: &p, objs: &g.objs, tolerant, mode, tags: &tags, out: None, has_other: None };
             visit_value_side(name, &mut v);
             let Some(out) = v.out else { continue };
-            let req = format!("c15.vw {} {} {} {} {} {}", peel as u8, tolerant as u8, mode, shape_txt, objs_text(&g.objs), show_plain(&p));
+            // a catch-all that cannot be replaced from outside the crate stays as read: tell the model so
+            let eff_mode = if out.notes.iter().any(|n| n == "catch-all-not-settable") || !sc.fields.iter().any(|f| f.other) { 'k' } else { mode };
+            let req = format!("c15.vw {} {} {} {} {} - {}", peel as u8, tolerant as u8, eff_mode, shape_txt, objs_text(&g.objs), show_plain(&p));
             cases.push(VsCase { name: name.to_string(), req, out, mode, minimal, input: show_plain(&p), objs: objs_text(&g.objs) });
         }
     }
@@ -342,6 +345,11 @@ pub fn vw_stream(driver: &Driver, schemas: &[SchemaJ], seed: u64, per_model: u64
         st.count(&format!("model={}", c.name));
         st.count(&format!("catch-all={}", match c.mode { 'c' => "emptied", 't' => "tags-stripped", _ => "as-read" }));
         st.count(&format!("outcome={}", c.out.answer.split(' ').next().unwrap_or("")));
+        let parts: Vec<&str> = c.out.answer.split(' ').collect();
+        if parts.len() == 4 {
+            st.count(&format!("fields={}", parts[2]));
+            st.count(&format!("catch-all-gained={}", if parts[3] == "-" { "nothing" } else { "tags" }));
+        }
         st.case(&c.req, m, &c.out.answer, c.out.answer.starts_with("ok"));
     }
     st
